@@ -471,6 +471,11 @@ func (w *Workceptor) unitStatusForCFR(unitID string) (map[string]interface{}, er
 	return retMap, nil
 }
 
+// isFinished reports whether a unit will produce no more output: it completed or it was cancelled.
+func isFinished(workState int) bool {
+	return IsComplete(workState) || workState == WorkStateCanceled
+}
+
 // sleepOrDone sleeps until a timeout or the done channel is signaled.
 func sleepOrDone(doneChan <-chan struct{}, interval time.Duration) bool {
 	select {
@@ -514,7 +519,7 @@ func (w *Workceptor) GetResults(ctx context.Context, unitID string, startPos int
 			switch {
 			case err == nil:
 			case os.IsNotExist(err):
-				if IsComplete(unit.Status().State) {
+				if isFinished(unit.Status().State) {
 					w.nc.GetLogger().Warning("Unit completed without producing any stdout\n")
 
 					return
@@ -597,7 +602,7 @@ func (w *Workceptor) GetResults(ctx context.Context, unitID string, startPos int
 			}
 			if err == io.EOF {
 				unitStatus := unit.Status()
-				if IsComplete(unitStatus.State) && filePos >= unitStatus.StdoutSize {
+				if isFinished(unitStatus.State) && filePos >= unitStatus.StdoutSize {
 					w.nc.GetLogger().Debug("Stdout complete - closing channel for: %s \n", unitID)
 
 					return
